@@ -33,6 +33,10 @@ func (s *Store) snapshotRevert(revertTo Snapshot) error {
 		return err
 	}
 
+	if s.footer != nil {
+		footer.PrevFooterOffset = s.footer.filePos
+	}
+
 	err = s.persistFooter(revertToFooter.SegmentLocs[0].mref.fref.file, footer,
 		persistOptions)
 	if err != nil {
